@@ -268,7 +268,8 @@ class Run:
     def __init__(self, kind, init_mode, base):
         self.kind = kind
         self.dir = tempfile.mkdtemp(prefix="c13-", dir=base)
-        self.path = os.path.join(self.dir, "store" if kind == "dir" else "store.sqlitedb")
+        # the file name contains the word the library uses for its in-memory store: only ":memory:" itself means that
+        self.path = os.path.join(self.dir, "store" if kind == "dir" else "memory_store.sqlitedb")
         self.store = open_store(kind, self.path, init_mode)
         _ = self.store.completed, self.store.not_completed  # touch like a user listing the store
         self.model = Model(kind, init_mode)
